@@ -1,7 +1,7 @@
 import CssVerif.Lib.Proto
 import CssVerif.Model.Tok
 import CssVerif.Model.TokSpec
-import CssVerif.Lemmas.TokLex2
+import CssVerif.Lemmas.TokLex2Sep
 import CssVerif.Model.TokPush
 open CssVerif CssVerif.Proto CssVerif.Tok CssVerif.Gen.C05
 
